@@ -1,11 +1,14 @@
 (* C13 driver.  Case syntax (names are the hex of the uncompressed absolute
    wire form, `00` is the root):
-     bm <t,t,..|-> <p,p,..|->                    => <bitmap hex> <one of 1 0 P per probe>
-     nsec <apex> <dnskey 0|1> <name>/<rtype> ..  => Ok <owner>/<next>/<bitmap> .. | Err n | Panic
-     nsec3 <apex> <dnskey> <alg> <flags> <iters> <salt> <excl 0|1> <name>/<rtype> ..
-                                                 => Ok <hash>/<next>/<bitmap> .. | Err n | Panic
+     bm <t,t,..|-> <p,p,..|->                    => <bitmap hex> <one of 1 0 P per probe> <iterated types>
+     nsec <apex> <dnskey 0|1> <name>/<rtype>/<class>/<ttl>/<soa minimum> ..
+                                                 => Ok <owner>/<next>/<bitmap>/<ttl>/<class> .. | Err n | Panic
+     nsec3 <apex> <dnskey> <alg> <flags> <iters> <salt> <excl 0|1> <s|m|f<ttl>> <name>/<rtype>/<class>/<ttl>/<min> ..
+                                                 => Ok <class> <nsec3param ttl> <hash>/<next>/<bitmap>/<ttl> .. | Err n | Panic
      hash <name> <iters> <salt>                  => <hash hex>
-     dedup <name>/<rtype>/<u|k>/<rdata> ..       => <name>/<rtype> .. *)
+     dedup <name>/<rtype>/<u|k>/<rdata> ..       => <name>/<rtype> ..
+     srt <name>/<rtype>/<u|k>/<rdata> ..         => <name>/<rtype>/<rdata> ..   (sort + dedup)
+     label <hash> <apex>                         => Ok <owner name> <decoded first label> *)
 let rec labels_of_wire (b : n list) : n list list =
   match b with
   | [] -> failwith "name: no root label"
@@ -28,6 +31,11 @@ let rec_of s =
   match String.split_on_char '/' s with
   | [nm; t] -> (name_of_hex nm, n_of_int (int_of_string t))
   | _ -> failwith "bad record"
+let trec_of s = match String.split_on_char '/' s with
+  | [nm; t; c; ttl; mn] -> { t_name = name_of_hex nm; t_type = n_of_int (int_of_string t);
+                             t_class = n_of_int (int_of_string c); t_ttl = n_of_int (int_of_string ttl);
+                             t_min = n_of_int (int_of_string mn) }
+  | _ -> failwith "bad trec"
 let flag s = (s = "1")
 let show_list f l = if l = [] then "-" else String.concat " " (List.map f l)
 let handle = function
@@ -35,18 +43,32 @@ let handle = function
       let (w, rs) = c13_bitmap (nlist ts) (nlist ps) in
       hex_of_bytes w ^ " " ^
       (if rs = [] then "-" else String.concat "" (List.map (fun r ->
-         match r with Ok true -> "1" | Ok false -> "0" | _ -> "P") rs))
+         match r with Ok true -> "1" | Ok false -> "0" | _ -> "P") rs)) ^ " " ^
+      (match c13_bm_iter (nlist ts) with
+       | Ok l -> if l = [] then "-" else String.concat "," (List.map (fun t -> string_of_int (int_of_n t)) l)
+       | _ -> "Panic")
   | "nsec" :: apex :: dk :: recs ->
-      show_outcome (show_list (fun r ->
-          hex_of_name r.n_owner ^ "/" ^ hex_of_name r.n_next ^ "/" ^ hex_of_bytes r.n_types))
-        (c13_nsec (name_of_hex apex) (flag dk) (List.map rec_of recs))
-  | "nsec3" :: apex :: dk :: alg :: flags :: iters :: salt :: excl :: recs ->
+      let trec_of s = match String.split_on_char '/' s with
+        | [nm; t; c; ttl; mn] -> { t_name = name_of_hex nm; t_type = n_of_int (int_of_string t);
+                                   t_class = n_of_int (int_of_string c); t_ttl = n_of_int (int_of_string ttl);
+                                   t_min = n_of_int (int_of_string mn) }
+        | _ -> failwith "bad trec" in
+      show_outcome (show_list (fun x -> let r = x.tn_rec in
+          hex_of_name r.n_owner ^ "/" ^ hex_of_name r.n_next ^ "/" ^ hex_of_bytes r.n_types ^ "/" ^
+          string_of_int (int_of_n x.tn_ttl) ^ "/" ^ string_of_int (int_of_n x.tn_class)))
+        (c13_nsec_t (name_of_hex apex) (flag dk) (List.map trec_of recs))
+  | "nsec3" :: apex :: dk :: alg :: flags :: iters :: salt :: excl :: pm :: recs ->
       let c = { c_dnskey = flag dk; c_alg = n_of_int (int_of_string alg);
                 c_flags = n_of_int (int_of_string flags); c_iters = n_of_int (int_of_string iters);
                 c_salt = bytes_of_hex salt; c_excl = flag excl } in
-      show_outcome (show_list (fun r ->
-          hex_of_bytes r.h_owner ^ "/" ^ hex_of_bytes r.h_next ^ "/" ^ hex_of_bytes r.h_types))
-        (c13_nsec3 (name_of_hex apex) c (List.map rec_of recs))
+      let m = if pm = "s" then PSoa else if pm = "m" then PSoaMin
+              else PFixed (n_of_int (int_of_string (String.sub pm 1 (String.length pm - 1)))) in
+      show_outcome (fun o ->
+          string_of_int (int_of_n o.o_class) ^ " " ^ string_of_int (int_of_n o.o_param_ttl) ^ " " ^
+          show_list (fun (r, ttl) ->
+            hex_of_bytes r.h_owner ^ "/" ^ hex_of_bytes r.h_next ^ "/" ^ hex_of_bytes r.h_types ^ "/" ^
+            string_of_int (int_of_n ttl)) o.o_recs)
+        (c13_nsec3_t (name_of_hex apex) c m (List.map trec_of recs))
   | ["hash"; nm; iters; salt] ->
       hex_of_bytes (c13_hash (name_of_hex nm) (n_of_int (int_of_string iters)) (bytes_of_hex salt))
   | "dedup" :: recs ->
@@ -55,5 +77,13 @@ let handle = function
         | _ -> failwith "bad srec" in
       show_list (fun (nm, t) -> hex_of_name nm ^ "/" ^ string_of_int (int_of_n t))
         (c13_dedup (List.map srec_of recs))
+  | "srt" :: recs ->
+      let srec_of s = match String.split_on_char '/' s with
+        | [nm; t; k; d] -> ((name_of_hex nm, n_of_int (int_of_string t)), (k = "u", bytes_of_hex d))
+        | _ -> failwith "bad srec" in
+      show_list (fun ((nm, t), (_, d)) -> hex_of_name nm ^ "/" ^ string_of_int (int_of_n t) ^ "/" ^ hex_of_bytes d)
+        (c13_sorted_records (List.map srec_of recs))
+  | ["label"; h; apex] ->
+      show_outcome (fun (o, d) -> hex_of_name o ^ " " ^ hex_of_bytes d) (c13_label (bytes_of_hex h) (name_of_hex apex))
   | _ -> failwith "bad case line"
 let () = main handle
